@@ -28,6 +28,18 @@ def save_case(prop, seed, shard, idx, case):
     os.makedirs(d, exist_ok=True)
     p = os.path.join(d, "%s-seed%s-shard%s-case%s.json" % (prop, seed, shard, idx))
     jdump_file(case, p)
+    # a shard that is later killed by the watchdog (a damaged index can make a traversal loop) must not
+    # lose the violations it has already witnessed: they are also appended to a sidecar the runner reads
+    side = os.environ.get("VERIF_SHARD_PARTIAL")
+    if side and isinstance(case, dict) and case.get("violation") is not None:
+        try:
+            import json
+            from .util import jdumps
+
+            with open(side, "a") as f:
+                f.write(jdumps({"discrepancy": case["violation"], "case": case.get("id"), "case_file": p}) + "\n")
+        except Exception:
+            pass
     return p
 
 
@@ -39,6 +51,7 @@ def main():
     spec = P.PROPS[prop]
     faulthandler.dump_traceback_later(spec[tier].get("watchdog", 900) - 5, exit=False)
     eng = engine_for(prop)
+    os.environ["VERIF_SHARD_PARTIAL"] = outp + ".partial"
     t0 = time.time()
     res = eng.run_shard(prop, spec, tier, seed, shard, nshards, scratch)
     res["wall"] = time.time() - t0
